@@ -57,9 +57,9 @@ Hypothesis Hunary : sym_unary T. (* in-section *)
 Hypothesis Hfaith : forall sid0 c0 r, In r (rules_from_strategy T sid0 c0) -> twoway_faithful T r. (* in-section *)
 
 (* one RuleDBBase.add: the first half of RuleDB.SearchHist.Ghist_base (the part that does not read the trace) *)
-Lemma Gres_base (C : Prop) (GP : cdbT -> list key -> list key -> list event -> Prop) :
+Lemma Gres_base (C : Prop) (GP : cdbT -> list key -> list key -> list event -> Prop) (U : Z -> Prop) :
   (mode =? 0) = true -> forall s sym start ends r,
-  Inv T C GP s -> rule_good T r -> (running s = true -> ProofsCore.labelled T (cdb s) sym start ends r) ->
+  Inv T C GP s -> rule_good T r -> (running s = true -> ProofsCore.labelled T U (cdb s) sym start ends r) ->
   Gs Gres s -> Gs Gres (base_add T (emit (EvAdd start ends (r_sid r) (r_parent r)) s) start ends r).
 Proof.
   intros Hm s sym start ends r I G Hl Hg. unfold Gs in *.
@@ -68,7 +68,7 @@ Proof.
       rewrite (dead_base_add T s start ends r R). exact Hg. }
   intros _. destruct (Hg Hm) as (a & l & Ha & Hd & Hr & He).
   destruct I as (W & _).
-  destruct (labelled_add_pre T Hunary Hfaith (cdb s) sym start ends r W G (Hl eq_refl)) as (cs & Hpre & Hk & Hf).
+  destruct (labelled_add_pre T Hunary Hfaith U (cdb s) sym start ends r W G (Hl eq_refl)) as (cs & Hpre & Hk & Hf).
   set (s0 := emit (EvAdd start ends (r_sid r) (r_parent r)) s).
   assert (running s0 = true /\ cdb s0 = cdb s /\ rstore s0 = rstore s /\ estore s0 = estore s) as (R0 & Hc0 & Hr0 & He0).
   { unfold s0, emit. rewrite R. unfold running in *. simpl. auto. }
@@ -112,7 +112,7 @@ Proof.
   assert (Forall (sev_in_pack True pack) es) as Hp.
   { eapply Forall_impl; [|exact Hpk]. intros [p e0| |]; simpl; auto. }
   destruct (search_events_ok T mode F expand_verified inferral_strategies initial_strategies expansion_strats
-              True pack Gres Gres_frame Gres_skip Gres_forest (fun _ Hm0 => Gres_base True Gres Hm0) Gres_init Gres_forget
+              True pack Gres Gres_frame Gres_skip Gres_forest (fun _ Hm0 => Gres_base True Gres _ Hm0) Gres_init Gres_forget
               (fun _ => Hpe) (fun _ => Hsym) mult ans start cs outs s' es k' extra' H Hp) as ((_ & E & _ & Gh) & _).
   destruct (Gh Logic.I Hm) as (a & l & A & B & D & E1). exists a, l. csplit; auto.
 Qed.
